@@ -28,7 +28,7 @@ THOROUGH_CLASSES = (["tiny", "small", "wide", "tall"], [0.45, 0.3, 0.15, 0.1])
 
 
 def n_fixed(tier):
-    return 2
+    return 3
 
 
 def fixed_specs(tier, ctx):
@@ -37,8 +37,14 @@ def fixed_specs(tier, ctx):
            "force_down": True}
     tall = {"seed": 0, "width": 1, "length": 220 if tier == "quick" else 400, "max_reward": 6, "rb": 0.5, "lb": 0.5,
             "tb": 0.5, "lt": 0.3, "force_down": True}
+    # > 8192 states per game: file of a few MB, loadability and structure only
+    huge = {"seed": 4, "width": 30 if tier == "quick" else 40, "length": 30 if tier == "quick" else 40, "max_reward": 6,
+            "rb": 0.1, "lb": 0.2, "tb": 0.3, "lt": 0.3, "force_down": True}
     return [{"cfg": {"klass": "plain"}, "ops": [{"op": "gen_cli", "params": div, "solve": True}]},
-            {"cfg": {"klass": "plain"}, "ops": [{"op": "gen_cli", "params": tall, "solve": True}]}]
+            {"cfg": {"klass": "plain"}, "ops": [{"op": "gen_cli", "params": tall, "solve": True}]},
+            {"cfg": {"klass": "plain"}, "ops": [{"op": "gen_cli", "params": huge, "solve": False},
+                                                {"op": "gen_cli", "params": dict(huge, seed=5), "solve": False,
+                                                 "same_process": True}]}]
 
 
 def _manual(rng):
@@ -248,12 +254,11 @@ def _judge(i_op, op, out, before, after, changed, wopens, w, ctx, events, states
                         "generator-crashed", etype=out.get("etype"), at="generator")
         return None
     # I11.1: one file, under inputs/, nothing else touched
-    paths = sorted(set(wopens))
+    paths = genops.game_files(wopens)
     if len(paths) != 1:
-        return viol("I11.1", i_op, "%s opened %s for writing, expected exactly one file" % (what, paths), "file-count")
+        return viol("I11.1", i_op, "%s produced the game files %s (all files produced: %s), expected exactly one under inputs/" % (
+            what, paths, sorted(set(wopens))), "file-count")
     rel = paths[0]
-    if not rel.startswith("inputs/") or rel not in after:
-        return viol("I11.1", i_op, "%s wrote %r (exists: %s)" % (what, rel, rel in after), "file-place")
     others = [c for c in changed if c != rel]
     clobbered = [c for c in others if c.startswith("inputs/") and c.endswith(".py") and not c.rsplit("/", 1)[-1].startswith(".")]
     if clobbered:
